@@ -1,7 +1,7 @@
 /-
 Instruction encoding as the compiler emits it (`crates/bytecode/src/compiler.rs`: `push_op`,
 `push_var_u32`, u16 little-endian offsets written by `update_offset_placeholder` /
-`push_jump_back_op`) — the operand layout of every opcode.
+`push_jump_back_op`, both range-checked) — the operand layout of every opcode.
 
 An instruction is an opcode followed by operand *fields*. The layout (which fields, in which order)
 is a table per opcode, `layout`; the only opcode with a value-dependent tail is `StringPush`
@@ -177,8 +177,11 @@ def Instr.valid (i : Instr) : Bool := fieldsOk i.fields i.args
 def updateOffset (offset : Nat) : Option (List Nat) :=
   if offset ≤ 65535 then some (encodeU16 offset) else none
 
-/-- `push_jump_back_op`: `(offset as u16).to_le_bytes()` — an unchecked truncating cast. -/
-def jumpBackOffsetBytes (offset : Nat) : List Nat := encodeU16 (offset % 65536)
+/-- `push_jump_back_op` (since fix f85bfca): the backward distance is checked with `u16::try_from`
+like a forward offset; `none` = `ErrorKind::JumpOffsetIsTooLarge`. (Before the fix the distance was
+cast with `as u16`, finding F-C05-1.) -/
+def jumpBackOffset (offset : Nat) : Option (List Nat) :=
+  if offset ≤ 65535 then some (encodeU16 offset) else none
 
 def decodeU16 (a b : Nat) : Nat := a + 256 * b
 
